@@ -36,7 +36,7 @@ def run(tier):
         parts = [
             {'label': 'one-step-all-classes', 'harness': HMixed(init_shapes='all', meta_subsets=3), 'monitors': mon,
              'opts': {'max_depth': 0}},
-            {'label': 'prefix<=3;roDelete;any', 'harness': HCompletion(max_list=2), 'monitors': mon, 'opts': {'max_depth': 4}},
+            {'label': 'prefix<=2;roDelete;any', 'harness': HCompletion(max_list=2), 'monitors': mon, 'opts': {'max_depth': 3, 'max_states': 40000}},
         ]
     return runner.graph_check(
         'C07', tier, parts, rule=RULE, vacuity=vacuity,
